@@ -108,6 +108,7 @@ ChainOk(pre, post, a) ==
           \* first record: at the node and visit the customer is in (created in this event or earlier)
           IF IsLive(pre, r.id) THEN r.n = CuOf(pre, r.id).loc /\ r.arr = CuOf(pre, r.id).arr
           ELSE r.id > pre.created /\ r.n = post.ev.node /\ r.arr = post.now
+       ELSE IF p.type = "renege" THEN r.arr = p.exit    \* only after jockeying to another node (C13 says where)
        ELSE IF Terminal(p.type) THEN FALSE
        ELSE IF r.type \in {"baulk", "rejection"} THEN FALSE      \* only ever a first record
        ELSE IF p.type = "interrupted service" /\ p.dest = NONE THEN r.n = p.n /\ r.arr = p.arr
@@ -141,8 +142,9 @@ F_C03_inv(cfg, S) ==
         \A j \in DOMAIN S.cu :
            LET c == S.cu[j]
            IN c.nrec > 0 =>
-                 /\ ~Terminal(c.ltype)
-                 /\ IF c.ltype = "interrupted service" /\ c.ldest = NONE
+                 /\ (~Terminal(c.ltype) \/ c.ltype = "renege")
+                 /\ IF c.ltype = "renege" THEN c.lexit = c.arr
+                    ELSE IF c.ltype = "interrupted service" /\ c.ldest = NONE
                     THEN c.lnode = c.loc /\ c.larr = c.arr
                     ELSE c.ldest = c.loc /\ c.lexit = c.arr)
 
@@ -599,6 +601,10 @@ FirstMinimal(pre, post, a, ds, lb) ==
     IN \A b \in DOMAIN ds : ds[b] = s.d =>
           \A c \in 1..(b-1) : SizeAt(pre, post, a, ds[c], lb) > SizeAt(pre, post, a, s.d, lb)
 
+\* where reneging customers of class k go from node n: the exit unless the (user-defined) router jockeys
+JockDest(cfg, k, n) ==
+    IF cfg.route[k].kind = "nr" /\ cfg.route[k].routers[n].jock # 0 THEN cfg.route[k].routers[n].jock ELSE EXIT
+
 \* is routing decision at step index a allowed?  (s.x = class whose router decided)
 RouteOk(cfg, pre, post, rt, a) ==
     LET s == post.steps[a]
@@ -612,7 +618,7 @@ RouteOk(cfg, pre, post, rt, a) ==
            \* the customer's remaining route before this decision
            rte == IF IsLive(pre, s.i) THEN CuOf(pre, s.i).route
                   ELSE IF IsLive(post, s.i) THEN <<>> ELSE <<>>
-       IN IF s.f = 2 THEN s.d = EXIT           \* built-in routers jockey to the exit
+       IN IF s.f = 2 THEN s.d = JockDest(cfg, k, s.n)   \* built-in routers jockey to the exit
           ELSE IF r.kind = "tm" THEN
                s.d \in PosDests([a2 \in 1..(N+1) |-> IF a2 <= N THEN a2 ELSE EXIT],
                                 [a2 \in 1..(N+1) |-> IF a2 <= N THEN r.P[s.n][a2] ELSE DEN - SumSeq(r.P[s.n])])
@@ -754,9 +760,11 @@ F_C13_step(cfg, pre, post) ==
        \cup Chk("C13.renege-record-and-destination", \A a \in rn :
              LET s == post.steps[a]
                  mine == SelectSeq(post.recs, LAMBDA r : r.id = s.i /\ r.type = "renege")
+                 jd == IF IsLive(pre, s.i) /\ CuOf(pre, s.i).cls \in 1..cfg.K THEN JockDest(cfg, CuOf(pre, s.i).cls, s.n) ELSE EXIT
              IN Len(mine) = 1 /\ mine[1].exit = post.now /\ mine[1].n = s.n
                 /\ (IsLive(pre, s.i) => mine[1].wait = post.now - CuOf(pre, s.i).arr)
-                /\ InSeq(post.exit, s.i) /\ ~IsLive(post, s.i))
+                /\ (IF jd = EXIT THEN InSeq(post.exit, s.i) /\ ~IsLive(post, s.i)
+                    ELSE \E a2 \in IdxOf(post, "accept") : post.steps[a2].i = s.i /\ post.steps[a2].n = jd))
        \cup Chk("C13.no-renege-in-service", \A a \in DOMAIN post.recs :
              post.recs[a].type = "renege" =>
                 IsLive(pre, post.recs[a].id) /\ CuOf(pre, post.recs[a].id).srv = 0
@@ -1097,6 +1105,9 @@ Triggers(cfg, pre, post) ==
     \cup (IF post.ev.kind = "shift_change" /\ post.ev.node \in DOMAIN cfg.nodes /\ cfg.nodes[post.ev.node].kind = "sched"
               /\ cfg.nodes[post.ev.node].sched.pre = 4 /\ IdxOf(post, "interrupt") # {}
           THEN {"F17"} ELSE {})
+    \cup (IF \E a \in IdxOf(post, "route") : post.steps[a].f = 2 /\ post.steps[a].d \in 1..NN(pre)
+                 /\ pre.nodes[post.steps[a].d].count >= pre.nodes[post.steps[a].d].cap
+          THEN {"F22"} ELSE {})
     \cup (IF post.ev.kind = "arrival" /\ post.now = 0 /\ post.ev.node \in DOMAIN cfg.nodes
               /\ cfg.nodes[post.ev.node].kind \in {"slot", "ps"}
           THEN {"F14"} ELSE {})
